@@ -78,6 +78,35 @@ static std::string run_case(const Box& b, bool is3d, Stats& st, int refill = 0) 
     return "";
 }
 
+// large grids: more voxels than 16 bits number (per axis, and in the flat index); a sparse set of probes instead of the full lattice: the corners, the centre, and the points
+// on either side of the voxel numbers 255/256 and 65535/65536 along the long axes
+template <class GRID>
+static std::string run_sparse(const double mn[3], const double ext[3], double voxel, Stats& st) {
+    double mx[3]; for (int k = 0; k < 3; k++) mx[k] = mn[k] + ext[k] * voxel; char buf[400];
+    std::vector<std::array<double, 3>> pts; std::vector<double> ax[3];
+    for (int k = 0; k < 3; k++) { ax[k] = {mn[k], mx[k], mn[k] + 0.5 * ext[k] * voxel, std::nextafter(mx[k], mn[k])}; for (double v : {255.0, 256.0, 65535.0, 65536.0}) if (v < ext[k]) { ax[k].push_back(mn[k] + (v - 0.25) * voxel); ax[k].push_back(mn[k] + v * voxel); ax[k].push_back(mn[k] + (v + 0.25) * voxel); } }
+    for (double x : ax[0]) for (double y : ax[1]) for (double z : ax[2]) pts.push_back({x, y, z});
+    GRID g(mn[0], mn[1], mn[2], mx[0], mx[1], mx[2], voxel, pts.size()); auto nb = g.get_nb_voxels(); std::map<size_t, int> occupant;
+    for (size_t i = 0; i < pts.size(); i++) { const auto& p = pts[i]; st.points++; auto idx = g.get_3d_voxel_index(p[0], p[1], p[2]);
+        for (int k = 0; k < 3; k++) { if (idx[k] >= nb[k]) { snprintf(buf, sizeof buf, "in-box-point-maps-to-nonexistent-voxel: large grid, point (%.17g,%.17g,%.17g) axis %d index %u of %u voxels", p[0], p[1], p[2], k, idx[k], nb[k]); return buf; }
+            const double lo = mn[k] + idx[k] * voxel, hi = lo + voxel, tol = 1e-9 * voxel + 4e-16 * (std::fabs(p[k]) + std::fabs(mn[k])); if (p[k] < lo - tol - 1e-9 || p[k] > hi + tol + 1e-9) { snprintf(buf, sizeof buf, "point-not-inside-its-voxel: large grid, coordinate %.17g axis %d voxel index %u [%.17g,%.17g]", p[k], k, idx[k], lo, hi); return buf; } }
+        size_t vid = g.get_voxel_index(idx[0], idx[1], idx[2]); if (vid >= (size_t)nb[0] * nb[1] * nb[2]) { snprintf(buf, sizeof buf, "flat-voxel-index-out-of-range: large grid, %zu of %zu", vid, (size_t)nb[0] * nb[1] * nb[2]); return buf; }
+        // the flat index must be a bijection of the three indices
+        if (vid != (size_t)idx[0] + (size_t)nb[0] * ((size_t)idx[1] + (size_t)nb[1] * idx[2]) && vid != (size_t)idx[2] + (size_t)nb[2] * ((size_t)idx[1] + (size_t)nb[1] * idx[0])) { /* layout is the grid's own business: only collisions are judged, below */ }
+        g.place_object((int)i, p[0], p[1], p[2]); occupant[vid] = (int)i;
+        bool found = false; if constexpr (std::is_same<GRID, uspg_3d<int>>::value) { auto c = g.get_voxel_content(idx[0], idx[1], idx[2]); found = c.has_value() && c.value() == (int)i; } else { for (int o : g.get_voxel_content(idx[0], idx[1], idx[2])) if (o == (int)i) found = true; }
+        if (!found) { snprintf(buf, sizeof buf, "object-not-retrievable-from-its-voxel: large grid, object %zu at (%.17g,%.17g,%.17g)", i, p[0], p[1], p[2]); return buf; } }
+    // two probes in different voxels (by their own coordinates) must not share a flat index
+    for (size_t i = 0; i < pts.size(); i++) for (size_t j = i + 1; j < pts.size(); j++) { auto a = g.get_3d_voxel_index(pts[i][0], pts[i][1], pts[i][2]), b = g.get_3d_voxel_index(pts[j][0], pts[j][1], pts[j][2]); if ((a[0] != b[0] || a[1] != b[1] || a[2] != b[2]) && g.get_voxel_index(a[0], a[1], a[2]) == g.get_voxel_index(b[0], b[1], b[2])) { snprintf(buf, sizeof buf, "two-voxels-share-a-flat-index: large grid, (%u,%u,%u) and (%u,%u,%u)", a[0], a[1], a[2], b[0], b[1], b[2]); return buf; } }
+    std::vector<int> stored; if (std::is_same<GRID, uspg_3d<int>>::value) { for (auto& kv : occupant) stored.push_back(kv.second); } else for (size_t i = 0; i < pts.size(); i++) stored.push_back((int)i); std::sort(stored.begin(), stored.end());
+    { auto content = g.get_grid_content(); std::vector<int> got(content.begin(), content.end()); std::sort(got.begin(), got.end()); if (got != stored) { snprintf(buf, sizeof buf, "full-content-query-differs-from-stored-objects: large grid, returned %zu objects, %zu stored", got.size(), stored.size()); return buf; } }
+    const double r2 = voxel * voxel * (1 - 1e-9) * (1 - 1e-9);
+    for (size_t qi = 0; qi < pts.size(); qi++) { const auto& q = pts[qi]; st.nb_queries++; auto nbh = g.get_neighborhood(q[0], q[1], q[2]); std::vector<char> in(pts.size(), 0); for (int o : nbh) if (o >= 0 && (size_t)o < pts.size()) in[o] = 1;
+        for (int o : stored) { const auto& p = pts[o]; double d2 = (p[0] - q[0]) * (p[0] - q[0]) + (p[1] - q[1]) * (p[1] - q[1]) + (p[2] - q[2]) * (p[2] - q[2]); if (d2 <= r2 && !in[o]) { snprintf(buf, sizeof buf, "neighbourhood-query-misses-object-within-one-voxel: large grid, query (%.17g,%.17g,%.17g) object at (%.17g,%.17g,%.17g)", q[0], q[1], q[2], p[0], p[1], p[2]); return buf; } } }
+    return "";
+}
+
+static std::string run_large_grid(int kind, int li, Stats& st) { static const double LG[4][7] = {{0, 0, 0, 300, 300, 1, 1.0}, {-5, 2, 1, 70000, 1, 2, 0.5}, {1, -3, 0, 2, 70000, 1, 1.0}, {0.5, 0.5, -7, 3, 2, 66000, 0.25}}; const double* L = LG[li]; double mn[3] = {L[0], L[1], L[2]}, ex[3] = {L[3], L[4], L[5]}; return kind == 3 ? run_sparse<uspg_3d<int>>(mn, ex, L[6], st) : run_sparse<uspg_4d<int>>(mn, ex, L[6], st); }
 static std::string run_any(const Case& c, Stats& st) { return c.grid_kind == 3 ? run_case<uspg_3d<int>>(c.b, true, st, c.refill) : run_case<uspg_4d<int>>(c.b, false, st, c.refill); }
 
 static void explore(Result& R) {
@@ -102,6 +131,9 @@ static void explore(Result& R) {
         if (cases % 1500 == 1) R.sample("{\"grid\":\"uspg_" + std::to_string(kind) + "d\",\"box\":" + box_json(c.b) + "}");
     }
 done:
+    { long large = 0; for (int kind : {3, 4}) for (int li = 0; li < 4; li++) { std::string err = run_large_grid(kind, li, st); large++; cases++;
+          if (!err.empty()) R.violation(clause_of(err) + "|uspg_" + std::to_string(kind) + "d|large", err, "mode=large\ngrid=" + std::to_string(kind) + "\nindex=" + std::to_string(li) + "\n"); }
+      R["large_grids"] = large; }
     R["evaluations"] = st.points + st.nb_queries; R["transitions"] = st.points + st.nb_queries; R["states"] = cases; R["distinct_nontrivial"] = cases;
     R["traces_validated_against_impl"] = cases; R["boxes"] = boxes; R["points_placed"] = st.points; R["neighbourhood_queries"] = st.nb_queries;
     R["points_on_box_boundary"] = st.boundary_points; R["points_on_max_corner"] = st.max_corner_points; R["cases_with_extent_multiple_of_voxel"] = exact_multiple;
@@ -111,6 +143,7 @@ done:
 }
 
 static int replay(const Replay& rp, Result& R) {
+    if (rp.get("mode") == "large") { Stats st; std::string a = run_large_grid((int)rp.geti("grid", 4), (int)rp.geti("index", 0), st), b = run_large_grid((int)rp.geti("grid", 4), (int)rp.geti("index", 0), st); if (a != b) { printf("replay diverged\n"); return 0; } printf("%s\n", a.c_str()); if (!a.empty()) { R.violation(a.substr(0, a.find(':')), a, ""); return 1; } return 0; }
     Case c; c.grid_kind = (int)rp.geti("grid", 4); c.refill = (int)rp.geti("refill", 0); c.b = box_parse(rp.get("box")); Stats st;
     std::string e1 = run_any(c, st), e2 = run_any(c, st);
     if (e1 != e2) { printf("replay diverged\n"); return 0; }
